@@ -369,7 +369,13 @@ func (propC20) AtEnd(r *Run) {
 	for _, probe := range []string{"clean-a", "clean-b", "only-b1", "ok-model", "dup", "z", "m1"} {
 		eps, _ := reg.GetEndpointsForModel(ctx, probe)
 		for _, e := range eps {
-			if e == b1url && seen[probe] == 0 {
+			listedFold := false
+			for n := range seen {
+				if strings.EqualFold(n, probe) {
+					listedFold = true // lookups fall back to a case-insensitive match by design
+				}
+			}
+			if e == b1url && !listedFold {
 				// the unified registry may answer through aliases; only the plain index is required to agree exactly
 				if _, unified := reg.(*registry.UnifiedMemoryModelRegistry); !unified {
 					r.AddViolation("C20/registry-indexes-disagree", "model->endpoints lookup of %q returns %s, which does not list it (%v)", probe, b1url, names)
